@@ -140,6 +140,9 @@ package dnsserver
 // AcquireReader (C05, C06, C14): the served DB is read AND pinned (reference taken) under the read lock,
 // so a reload cannot destroy it in between.
 //@ func FBDNSDB.AcquireReader
+// sync.RWMutex forbids recursive read locking (a writer queued between the two RLocks blocks the second one for
+// ever): whoever pins a reader must not already hold reloadMu, in any mode (C14)
+//@ requires[not-reentrant] held(h.reloadMu) == 0
 //@ updates closes, ncontexts
 //@ ensures[one-pin] ncontexts == old(ncontexts) + ite(err == nil, 1, 0) || ncontexts == old(ncontexts)
 //@ ensures[pin-count] err == nil ==> ncontexts == old(ncontexts) + 1
